@@ -60,29 +60,10 @@ def r1(ctx):
         (sh[0] == "HTTP/{}.{}" or "'.'.join" in norm(sh[1][0]))
     ctx.check("C15.R1", ok_sp, key(f, "prov|SERVER_PROTOCOL"), site(f, text="SERVER_PROTOCOL"), "SERVER_PROTOCOL is `%s`, required 'HTTP/' major '.' minor of req.version" % txt, "SERVER_PROTOCOL <- HTTP/major.minor")
     # request fields themselves
-    fp = ctx.fn(repo.func(MSG + ".Request.parse_request_line"))
-    bits = None
-    for s in fp.cfg.stmts(ast.Assign):
-        if isinstance(s.ast.targets[0], ast.Name) and "split(b' ', 2)" in norm(s.ast.value):
-            bits = s.ast.targets[0].id
-    ctx.check("C15.R1", bits is not None, key(fp, "three-way-split"), site(fp), "the request line is not split on the first two spaces", "line.split(b' ', 2)")
-    parts = None
-    for s in fp.cfg.stmts(ast.Assign):
-        if isinstance(s.ast.value, ast.Call) and repo.call_target(fp.module, fp, s.ast.value) == UTIL + ".split_request_uri":
-            parts = s.ast.targets[0].id
-            arg = s.ast.value.args[0]
-            ctx.check("C15.R1", tail(arg) == "uri", key(fp, "split-the-target"), site(fp, s), "split_request_uri is not applied to the request-target", "split_request_uri(self.uri)")
-    ctx.need(parts, "C15.R1: split_request_uri not called in parse_request_line")
-    fields = {}
-    for s in fp.cfg.stmts(ast.Assign):
-        for t in s.ast.targets:
-            if isinstance(t, ast.Attribute) and tail(t.value) == "self":
-                fields.setdefault(t.attr, []).append(norm(s.ast.value))
-    if bits:
-        ctx.check("C15.R1", fields.get("method", [None])[0] == "%s[0]" % bits, key(fp, "field|method"), site(fp), "self.method is `%s`, must be the first element of the request line" % fields.get("method"), "method <- bits[0]")
-        ctx.check("C15.R1", fields.get("uri") == ["%s[1]" % bits], key(fp, "field|uri"), site(fp), "self.uri is `%s`, must be the verbatim second element of the request line" % fields.get("uri"), "uri <- bits[1]")
-    ctx.check("C15.R1", fields.get("query") == ["%s.query or ''" % parts], key(fp, "field|query"), site(fp), "self.query is `%s`, must be the query component of the target" % fields.get("query"), "query <- parts.query")
-    ctx.check("C15.R1", fields.get("path") == ["%s.path or ''" % parts], key(fp, "field|path"), site(fp), "self.path is `%s`, must be the path component of the target" % fields.get("path"), "path <- parts.path")
+    # method / uri / version / path / query are what the request line says: evaluated (request-line table of C01.R3
+    # with the field clause)
+    from .c01 import request_line_table
+    request_line_table(ctx, "C15.R1", fields=True, enumerate_bytes=False)
     # ---- create(): header loop
     f = ctx.fn(repo.func(WSGI + ".create"))
     g = f.cfg
@@ -227,29 +208,11 @@ def r3(ctx):
     repo = ctx.repo
     f = ctx.fn(repo.func(MSG + ".Request.parse_request_line"))
     g = f.cfg
-    calls = calls_to(repo, f, UTIL + ".split_request_uri")
-    ctx.need(calls, "C15.R3: split_request_uri not called")
-    C0 = frozenset(range(0x00, 0x20))
-
-    def ctl(e):
-        rt = regex_test(repo, f, e)
-        if not rt or tail(rt[3]) != "uri":
-            return None
-        try:
-            cs, lo, hi = regexset.single_class(rt[0].pattern, rt[0].flags)
-        except AnalysisError:
-            return None
-        if rt[2] == "search" and C0 <= cs and lo >= 1:
-            return +1
-        if rt[2] == "fullmatch" and not (cs & C0):
-            return -1
-        return None
-    kl = [s for s in g.stmts(ast.Assign) if any(isinstance(t, ast.Attribute) and t.attr == "uri" for t in s.ast.targets)]
-    for c in calls:
-        p, hits = guard_check(f, nodes_with(f, c), ctl, kills=kl)
-        ctx.check("C15.R3", p is None, key(f, "urlsplit-on-unvalidated-target"), site(f, c),
-                  "the request-target reaches urllib.parse.urlsplit without control characters having been rejected: urlsplit silently deletes TAB/CR/LF and strips leading C0 bytes, "
-                  "so RAW_URI ('/a\\nb') and PATH_INFO ('/ab') disagree and a log line can be split", "C0 controls rejected before urlsplit", path=p and g.fmt_path(p))
+    # evaluated: every byte value inside the request-target -- C0 controls, SP and DEL are rejected before the target is
+    # split (urlsplit would silently delete TAB/CR/LF: RAW_URI and PATH_INFO would disagree), and the accepted targets
+    # are split into exactly the path/query the line carries (request-line table of C01.R3 with the field clause)
+    from .c01 import request_line_table
+    request_line_table(ctx, "C15.R3", fields=True, enumerate_bytes=True)
     # only split_request_uri calls urlsplit in the request path
     for ff in [x for mn in (MSG, WSGI, "gunicorn.http.body") for x in repo.module(mn).all_funcs]:
         for c, q in repo.calls_in(ff):
@@ -258,27 +221,30 @@ def r3(ctx):
 
 
 def r4(ctx):
+    """evaluated: util.split_request_uri on request-targets of all four forms -- in particular origin-form targets that
+    begin with '//' keep their whole text as the path (whatever work-around the code uses around urlsplit)"""
     repo = ctx.repo
     f = ctx.fn(repo.func(UTIL + ".split_request_uri"))
     g = f.cfg
     U = f.params[0]
-    added = None
-    for c in calls_to(repo, f, "urllib.parse.urlsplit"):
-        a = c.args[0]
-        if isinstance(a, ast.BinOp) and isinstance(a.op, ast.Add) and isinstance(const(a.left, NO), str) and norm(a.right) == U:
-            added = (c, len(const(a.left)))
-    ctx.check("C15.R4", added is not None, key(f, "workaround"), site(f), "the '//' workaround (temporary prefix) was not found", "urlsplit('.' + uri)")
-    if added:
-        c, k = added
-        cut = [n for n in walk_own(f.node) if isinstance(n, ast.Subscript) and isinstance(n.slice, ast.Slice) and tail(n.value) == "path"]
-        okk = len(cut) == 1 and const(cut[0].slice.lower, NO) == k and cut[0].slice.upper is None
-        ctx.check("C15.R4", okk, key(f, "removes-what-it-added"), site(f, cut[0] if cut else c), "the workaround adds %d character(s) but removes %s" % (k, norm(cut[0].slice.lower) if cut else "none"), "adds %d, removes %d" % (k, k))
-
-        def dbl(e):
-            if isinstance(e, ast.Call) and isinstance(e.func, ast.Attribute) and e.func.attr == "startswith" and e.args and const(e.args[0], NO) == "//":
-                return -1
-            return None
-        p, hits = guard_check(f, nodes_with(f, c), dbl)
-        ctx.check("C15.R4", p is None, key(f, "only-for-double-slash"), site(f, c), "the prefix workaround is applied to targets that do not start with '//'", "only for '//' targets", path=p and g.fmt_path(p))
-    plain = [c for c in calls_to(repo, f, "urllib.parse.urlsplit") if norm(c.args[0]) == U]
-    ctx.check("C15.R4", bool(plain), key(f, "plain-split"), site(f), "other targets are not split verbatim", "urlsplit(uri)")
+    cases = {
+        "/": ("/", "", ""), "/a/b": ("/a/b", "", ""), "/a?b=1": ("/a", "b=1", ""), "/a?b=1#f": ("/a", "b=1", "f"), "/a#f": ("/a", "", "f"), "/a#f?x": ("/a", "", "f?x"),
+        "/a?b?c#d#e": ("/a", "b?c", "d#e"), "//a/b": ("//a/b", "", ""), "//a/b?c#d": ("//a/b", "c", "d"), "//": ("//", "", ""), "///x": ("///x", "", ""), "//a": ("//a", "", ""),
+        "/.": ("/.", "", ""), "/a//b": ("/a//b", "", ""), "/%2f%41?x=%20": ("/%2f%41", "x=%20", ""), "*": ("*", "", ""),
+        "http://h/p?q#r": ("/p", "q", "r"), "http://h": ("", "", ""), "h:443": (None, "", ""), "/caf\xe9?\xfc": ("/caf\xe9", "\xfc", ""), "/a;p=1?q": ("/a;p=1", "q", ""),
+    }
+    rows = []
+    for uri, (pth, qry, frg) in cases.items():
+        outs = Explorer(f).run(g.entry, {U: uri})
+        got = set()
+        for o in outs:
+            d = o.detail if o.kind == "return" else o.kind
+            if isinstance(d, tuple) and hasattr(d, "path"):
+                got.add((d.path if pth is not None else None, d.query, d.fragment))
+            else:
+                got.add(str(d))
+        want = (pth, qry, frg)
+        rows.append({"target": uri, "split": sorted(map(str, got)), "required": str(want)})
+        ctx.check("C15.R4", got == {want}, key(f, "split|" + uri), site(f, text="request-target %r" % uri),
+                  "request-target %r is split into (path, query, fragment) = %s, required %s: PATH_INFO / QUERY_STRING would not be what the client sent" % (uri, sorted(map(str, got)), want), str(want))
+    ctx.table("C15.R4 split_request_uri", rows)
